@@ -444,22 +444,96 @@ func readable(d []string, max int) []string {
 	return out
 }
 
+// historyRuns: load orders with an intermediate Process: the first pos texts are parsed, Process runs
+// (its result is ignored), the rest is parsed, Process runs again. Every Process run starts from a
+// clean slate, so the last run has to give what one run over all texts gives. For sets with several
+// revisions of one name (there the meaning of a plain import changes when a newer revision arrives)
+// and for every third other set; all positions of the base order when the set has at most 5 files,
+// plus random orders with random positions.
+func historyRuns(c rescorr.Case, k *know) (vs []variant, pos []int) {
+	n := len(c.Names)
+	if rescorr.FromPath(c) || c.Extra["process_after"] != "" || n < 2 {
+		return
+	}
+	multi := false
+	for _, nm := range c.Names {
+		if strings.Contains(nm, "@") {
+			multi = true
+		}
+	}
+	if !multi && k.Seed%3 != 0 {
+		return
+	}
+	r := rand.New(rand.NewSource(k.Seed*31 + 7))
+	random := func(identity bool) variant {
+		v := variant{order: r.Perm(n), augs: map[int][]int{}}
+		for i, nm := range c.Names {
+			if b, ok := k.Blocks[nm]; ok && b[1] > 0 {
+				v.augs[i] = r.Perm(b[1])
+				if identity {
+					for j := range v.augs[i] {
+						v.augs[i][j] = j
+					}
+				}
+			}
+		}
+		if identity {
+			for i := range v.order {
+				v.order[i] = i
+			}
+		}
+		return v
+	}
+	id := random(true)
+	if n <= 5 {
+		for p := 1; p < n; p++ {
+			vs, pos = append(vs, id), append(pos, p)
+		}
+	} else {
+		for i := 0; i < 2; i++ {
+			vs, pos = append(vs, id), append(pos, 1+r.Intn(n-1))
+		}
+	}
+	extra := 2
+	if multi {
+		extra = 6
+	}
+	for i := 0; i < extra; i++ {
+		vs, pos = append(vs, random(false)), append(pos, 1+r.Intn(n-1))
+	}
+	return
+}
+
 func oraclePerm(c rescorr.Case, k *know, out *rescorr.GoOut) {
 	base := out.Dump
 	baseErr := rescorr.HasErrors(base)
 	baseSet, baseDup := errKey(base, c, k, nil)
 	vs := variants(c, k)
-	n := 0
+	after := make([]int, len(vs)) // 0: no intermediate Process
+	hv, hp := historyRuns(c, k)
+	vs, after = append(vs, hv...), append(after, hp...)
+	n, nh := 0, 0
+	cur := ""
 	report := func(kind string, v variant, vdump []string, what string) {
-		out.Findings = append(out.Findings, fmt.Sprintf("%s[]: %s: %s", kind, v.String(c.Names), what))
+		if kind == "perm" && cur != "" {
+			kind = "history"
+		}
+		out.Findings = append(out.Findings, fmt.Sprintf("%s[]: %s%s: %s", kind, v.String(c.Names), cur, what))
 		if out.Extra["variant"] == nil {
-			out.Extra["variant"] = []string{v.String(c.Names)}
+			out.Extra["variant"] = []string{v.String(c.Names) + cur}
 			out.Extra["variant_outcome"] = readable(vdump, 80)
 		}
 	}
 	bad := 0
-	for _, v := range vs {
+	for vi, v := range vs {
 		vc := applyVariant(c, k, v)
+		cur = ""
+		if after[vi] > 0 {
+			vc.Extra = map[string]string{"process_after": strconv.Itoa(after[vi])}
+			cur = fmt.Sprintf("; Process also after the first %d texts", after[vi])
+			nh++
+			n--
+		}
 		d, perr, pmsg := runVariant(vc)
 		n++
 		switch {
@@ -496,6 +570,7 @@ func oraclePerm(c rescorr.Case, k *know, out *rescorr.GoOut) {
 		}
 	}
 	out.Extra["variants"] = []string{strconv.Itoa(n)}
+	out.Extra["history_variants"] = []string{strconv.Itoa(nh)}
 }
 
 func hook(c rescorr.Case, ms *yang.Modules, errs []error, out *rescorr.GoOut) {
@@ -595,6 +670,39 @@ func pathCase(c rescorr.Case, s *gen.C07Set, r *rand.Rand) (rescorr.Case, bool) 
 	pc := c
 	pc.Extra = map[string]string{"c07": c.Extra["c07"], "label": "path", "from_path": "1", "roots": strings.Join(rs, ",")}
 	return pc, true
+}
+
+// historyCase: for a set with several revisions of one name, the same texts in the order "older
+// revisions and everything else first, the newest revision of each name last", with a Process before
+// the newest revisions arrive (rescorr: process_after). The outcome of the last Process is compared
+// with the model (which knows no history: one run over all texts) and with all explicit orders.
+func historyCase(c rescorr.Case) (rescorr.Case, bool) {
+	newest := map[string]string{}
+	for _, n := range c.Names {
+		if i := strings.Index(n, "@"); i > 0 && n > newest[n[:i]] {
+			newest[n[:i]] = n
+		}
+	}
+	if len(newest) == 0 {
+		return c, false
+	}
+	hc := rescorr.Case{IgnoreCircular: c.IgnoreCircular, IgnoreNotSupported: c.IgnoreNotSupported}
+	var lastN, lastT []string
+	for i, n := range c.Names {
+		j := strings.Index(n, "@")
+		if j > 0 && newest[n[:j]] == n {
+			lastN, lastT = append(lastN, n), append(lastT, c.Texts[i])
+			continue
+		}
+		hc.Names, hc.Texts = append(hc.Names, n), append(hc.Texts, c.Texts[i])
+	}
+	k := len(hc.Names)
+	if k == 0 {
+		return c, false
+	}
+	hc.Names, hc.Texts = append(hc.Names, lastN...), append(hc.Texts, lastT...)
+	hc.Extra = map[string]string{"c07": c.Extra["c07"], "label": "history", "process_after": strconv.Itoa(k)}
+	return hc, true
 }
 
 // implicitAugments counts the augment statements of a files-on-disk case that are written in files
@@ -944,6 +1052,52 @@ func corpus(seed int64) []rescorr.Case {
 		dnm, []cAug{{expect: gen.C07Apply, flag: "notunique"}},
 		[]gen.C07Node{nd("t", "/t", "urn:t"), nd("t", "/t/other", "urn:t"), nd("t", "/t/other/o", "urn:t"), nd("a", "/a", "urn:a"), nd("d", "/d", "urn:d")},
 		seed+int64(len(out))))
+	// 29./30. import tables are per file: a module and its submodule (two sibling submodules) bind the
+	// prefix t to different modules and write the same path string
+	cnm := map[string]string{"urn:alpha": "alpha", "urn:beta": "beta", "urn:main": "main"}
+	tmod := func(n string) string {
+		return "module " + n + " {\n  namespace \"urn:" + n + "\";\n  prefix " + n + ";\n  container top {\n    leaf own { type string; }\n  }\n}\n"
+	}
+	cforest := func(extra ...gen.C07Node) []gen.C07Node {
+		return append([]gen.C07Node{nd("alpha", "/alpha", "urn:alpha"), nd("alpha", "/alpha/top", "urn:alpha"), nd("alpha", "/alpha/top/own", "urn:alpha"),
+			nd("beta", "/beta", "urn:beta"), nd("beta", "/beta/top", "urn:beta"), nd("beta", "/beta/top/own", "urn:beta"), nd("main", "/main", "urn:main")}, extra...)
+	}
+	out = append(out, corpusCase("per-file-prefix-owner-and-submodule", []string{"alpha.yang", "beta.yang", "main.yang", "main-sub.yang"}, []string{
+		tmod("alpha"), tmod("beta"),
+		"module main {\n  namespace \"urn:main\";\n  prefix main;\n  include main-sub;\n  import alpha { prefix t; }\n" +
+			"  augment \"/t:top\" { leaf from-main { type string; } }\n}\n",
+		"submodule main-sub {\n  belongs-to main { prefix main; }\n  import beta { prefix t; }\n" +
+			"  augment \"/t:top\" { container from-sub { leaf x { type string; } } }\n}\n"},
+		cnm, []cAug{ap(nd("alpha", "/alpha/top/from-main", "urn:main")), ap(nd("beta", "/beta/top/from-sub", "urn:main"))},
+		cforest(nd("alpha", "/alpha/top/from-main", "urn:main"), nd("beta", "/beta/top/from-sub", "urn:main"), nd("beta", "/beta/top/from-sub/x", "urn:main")),
+		seed+int64(len(out))))
+	out = append(out, corpusCase("per-file-prefix-sibling-submodules", []string{"alpha.yang", "beta.yang", "main.yang", "main-s1.yang", "main-s2.yang"}, []string{
+		tmod("alpha"), tmod("beta"),
+		"module main {\n  namespace \"urn:main\";\n  prefix main;\n  include main-s1;\n  include main-s2;\n}\n",
+		"submodule main-s1 {\n  belongs-to main { prefix main; }\n  import alpha { prefix t; }\n" +
+			"  augment \"/t:top\" { leaf n1 { type string; } }\n}\n",
+		"submodule main-s2 {\n  belongs-to main { prefix main; }\n  import beta { prefix t; }\n" +
+			"  augment \"/t:top\" { leaf n1 { type string; } }\n}\n"},
+		cnm, []cAug{{expect: gen.C07Apply, nodes: []gen.C07Node{nd("alpha", "/alpha/top/n1", "urn:main")}, flag: "notunique"},
+			{expect: gen.C07Apply, nodes: []gen.C07Node{nd("beta", "/beta/top/n1", "urn:main")}, flag: "notunique"}},
+		cforest(nd("alpha", "/alpha/top/n1", "urn:main"), nd("beta", "/beta/top/n1", "urn:main")),
+		seed+int64(len(out))))
+	// 31. a newer revision of the augmented module arrives after a first Process: the plain import of b
+	// then means the newer revision, as in a fresh run over the three texts
+	hist := corpusCase("history-newer-revision-after-a-process", []string{"a@2020-01-01.yang", "b.yang", "a@2021-01-01.yang"}, []string{
+		"module a {\n  namespace \"urn:a\";\n  prefix a;\n  revision 2020-01-01;\n  container top {\n    leaf own { type string; }\n  }\n}\n",
+		"module b {\n  namespace \"urn:b\";\n  prefix b;\n  import a { prefix a; }\n" +
+			"  augment \"/a:top\" { container from-b { leaf x { type string; } } }\n}\n",
+		"module a {\n  namespace \"urn:a\";\n  prefix a;\n  revision 2021-01-01;\n  revision 2020-01-01;\n  container top {\n    leaf own { type string; }\n    leaf newer { type string; }\n  }\n}\n"},
+		abc, []cAug{ap(nd("a@2021-01-01", "/a/top/from-b", "urn:b"))},
+		[]gen.C07Node{nd("a@2020-01-01", "/a", "urn:a"), nd("a@2020-01-01", "/a/top", "urn:a"), nd("a@2020-01-01", "/a/top/own", "urn:a"),
+			nd("a@2021-01-01", "/a", "urn:a"), nd("a@2021-01-01", "/a/top", "urn:a"), nd("a@2021-01-01", "/a/top/own", "urn:a"),
+			nd("a@2021-01-01", "/a/top/newer", "urn:a"), nd("a@2021-01-01", "/a/top/from-b", "urn:b"), nd("a@2021-01-01", "/a/top/from-b/x", "urn:b"),
+			nd("b", "/b", "urn:b")},
+		seed+int64(len(out)))
+	out = append(out, hist)
+	hist.Extra = map[string]string{"c07": hist.Extra["c07"], "label": "corpus-history", "process_after": "2"}
+	out = append(out, hist)
 	return out
 }
 
@@ -981,6 +1135,10 @@ func shapeOf(i int) int {
 		// several revisions of one module or submodule loaded at once: also a fifth
 		return gen.C07MultiRev
 	}
+	if (i/2)%10 == 8 {
+		// one prefix bound to different modules in the files of one module
+		return gen.C07PrefixClash
+	}
 	if (i/2)%10 == 3 {
 		// a failing augment whose target a deviation removes afterwards: nothing else may fail in such a set
 		return gen.C07DevGone
@@ -1010,7 +1168,7 @@ func main() {
 	const batch = 4000
 	distinct := lib.NewDistinct()
 	all := lib.NewDistinct()
-	var clean, withErr, outside, skipped, outsideClaim, variantsRun, expClean, expErr, exhaustive, total, childlessSets, childlessSets2, sharedOnlySets, oldRevSets, multiRevSets, pathCases, pathImplicit, pathPartial, noModel, devErrSets, devCtlSets int64
+	var clean, withErr, outside, skipped, outsideClaim, variantsRun, expClean, expErr, exhaustive, total, childlessSets, childlessSets2, sharedOnlySets, oldRevSets, multiRevSets, pathCases, pathImplicit, pathPartial, noModel, devErrSets, devCtlSets, historyRun, historyBase, clashSets int64
 	shapeCount := map[string]int64{}
 	expectCount := map[string]int64{}
 	originCount := map[string]int64{}
@@ -1027,6 +1185,9 @@ func main() {
 			set := gen.GenerateC07(f.Rand(i), shapeOf(i))
 			c := caseOf(set, f.Seed*1000003+int64(i), 24)
 			cases = append(cases, c)
+			if hc, ok := historyCase(c); ok {
+				cases = append(cases, hc)
+			}
 			if i%4 == 1 {
 				// the same set once more with most files on the search path only
 				if pc, ok := pathCase(c, set, f.Rand(n+i)); ok {
@@ -1066,6 +1227,15 @@ func main() {
 			for _, a := range k.Augs {
 				if a.OldRevision {
 					oldRevSets++
+					break
+				}
+			}
+			if o.Case.Extra["process_after"] != "" {
+				historyBase++
+			}
+			for _, a := range k.Augs {
+				if a.PrefixClash {
+					clashSets++
 					break
 				}
 			}
@@ -1115,6 +1285,10 @@ func main() {
 				skipped++
 				continue
 			}
+			if v := o.Go.Extra["history_variants"]; len(v) == 1 {
+				x, _ := strconv.Atoi(v[0])
+				historyRun += int64(x)
+			}
 			if v := o.Go.Extra["variants"]; len(v) == 1 {
 				x, _ := strconv.Atoi(v[0])
 				variantsRun += int64(x)
@@ -1159,12 +1333,15 @@ func main() {
 					d.Kind = "crash"
 					d.Go = map[string]any{"findings": texts}
 					d.What = "goyang panicked on a permutation of the set: " + texts[0]
-				case "perm":
+				case "perm", "history":
 					d.Go = map[string]any{"base": map[string]any{"order": "load order " + strings.Join(o.Case.Names, ",") + "; augments as written",
 						"outcome": readable(o.Go.Dump, 80)},
 						"variant":  map[string]any{"order": o.Go.Extra["variant"], "outcome": o.Go.Extra["variant_outcome"]},
 						"findings": texts}
 					d.What = "two orders of one source set give different outcomes: " + texts[0]
+					if kind == "history" {
+						d.What = "loading in steps with a Process in between gives another outcome than one Process over all texts: " + texts[0]
+					}
 				case "reported":
 					d.Go = map[string]any{"outcome": readable(o.Go.Dump, 80), "findings": texts}
 					d.What = "an augment that cannot be applied is not reported (or one that can is): " + texts[0]
@@ -1242,7 +1419,7 @@ func main() {
 			break
 		}
 	}
-	res.Evaluations = total + variantsRun
+	res.Evaluations = total + variantsRun + historyRun
 	res.DistinctNontrivial = distinct.Len()
 	res.Rule = "hand-written corpus (chain over three modules in the worst order, uses target, rpc input/output written and implicit, collisions, " +
 		"leaf/leaf-list/anyxml/anydata targets, missing targets, errors in the body, submodules, choice/case, notification, action) then seeded sets of " +
@@ -1272,6 +1449,9 @@ func main() {
 	res.Distribution["path_cases_model_not_asked"] = noModel
 	res.Distribution["sets_with_a_failing_augment_whose_target_a_not_supported_deviation_removes"] = devErrSets
 	res.Distribution["sets_with_a_clean_augment_whose_target_a_not_supported_deviation_removes"] = devCtlSets
+	res.Distribution["history_variants_executed(intermediate Process)"] = historyRun
+	res.Distribution["multi_revision_cases_where_the_newest_revision_arrives_after_an_intermediate_Process"] = historyBase
+	res.Distribution["sets_with_one_path_string_under_per_file_prefix_bindings"] = clashSets
 	res.Distribution["outside_model"] = outside
 	res.Distribution["go_parse_rejected"] = skipped
 	res.Distribution["outside_claim(implicit case as target)"] = outsideClaim
